@@ -24,7 +24,7 @@ func (g *lsGen) globPattern() string {
 	case 0:
 		return g.prefix + "*"
 	case 1:
-		return "*"
+		return g.prefix + "*" + pick(r, []string{"", "a", "y"})
 	case 2:
 		return g.key()
 	case 3:
@@ -34,7 +34,7 @@ func (g *lsGen) globPattern() string {
 	case 5:
 		return g.prefix + "[^a]*"
 	case 6:
-		return "*" + pick(r, []string{"a", "b", "y", "1"})
+		return g.prefix + "*" + pick(r, []string{"a", "b", "y", "1"}) + pick(r, []string{"", "*", "?"})
 	default:
 		return g.prefix + "\\" + pick(r, []string{"a", "*", "?"})
 	}
